@@ -288,7 +288,7 @@ func (g *g5) digits(k int, firstNonZero bool) string {
 	return string(b)
 }
 
-func groupDigits(s, sep string) string {
+func c5GroupDigits(s, sep string) string {
 	if len(s) <= 3 {
 		return s
 	}
@@ -332,21 +332,21 @@ func (g *g5) number() string {
 		return id + "," + fr
 	case 5:
 		g.c.Count("num.group,")
-		s := groupDigits(id, ",")
+		s := c5GroupDigits(id, ",")
 		if fr != "" {
 			s += "." + fr
 		}
 		return s
 	case 6:
 		g.c.Count("num.group.")
-		s := groupDigits(id, ".")
+		s := c5GroupDigits(id, ".")
 		if fr != "" {
 			s += "," + fr
 		}
 		return s
 	case 7:
 		g.c.Count("num.groupsp")
-		s := groupDigits(id, " ")
+		s := c5GroupDigits(id, " ")
 		if fr != "" {
 			s += g.of(",", ".") + fr
 		}
@@ -560,19 +560,19 @@ func (g *g5) formatNumberSample() string {
 	fr := strings.Repeat("0", dec)
 	switch g.n(8) {
 	case 0: // 1,000.00
-		s := groupDigits(ip, ",")
+		s := c5GroupDigits(ip, ",")
 		if dec > 0 {
 			s += "." + fr
 		}
 		return s
 	case 1: // 1.000,00
-		s := groupDigits(ip, ".")
+		s := c5GroupDigits(ip, ".")
 		if dec > 0 {
 			s += "," + fr
 		}
 		return s
 	case 2: // 1 000,00 / 1 000.00
-		s := groupDigits(ip, " ")
+		s := c5GroupDigits(ip, " ")
 		if dec > 0 {
 			s += g.of(",", ".") + fr
 		}
